@@ -133,6 +133,13 @@ def _check_fragment(world, ev, before, rec, after, eff, model, out):
             sg += 'K'
         else:
             sg += 'C'
+    out['hist']['strategy:' + (sg or '-')] = out['hist'].get('strategy:' + (sg or '-'), 0) + 1
+    if world.cfg['use_queue'] and 'C' in sg:
+        # with queues on a direct merge only happens when every merge can fast-forward (is_needed false):
+        # hypothesis ff_strategy of theorem C03_direct_merge
+        out['mismatch'].append({'function': 'C03_direct_merge hypothesis (fast-forwarding strategy)',
+                                'input': {'event': ev, 'pr': pr['id'], 'strategies': sg}, 'impl': sg,
+                                'model': 'O, R or K'})
     req = 'miops %s %s' % (sg or '-', ','.join('%d:%d' % (names[t], names[w]) for t, w in pairs))
     got = model.batch([req])[0]
     real = ';'.join('%d:%s' % (names[d], '+'.join(str(names[s]) for s in ss)) for d, ss in eff)
